@@ -60,4 +60,24 @@ int ostream_open_stdout(sqfs_ostream_t **out);
 sqfs_istream_t *istream_memory_create(const char *name, size_t bufsz,
 				      const void *data, size_t size);
 
+/*
+  A file inode carries one 32 bit size word per data block (also for the
+  blocks of a hole) and the block processor refuses to grow that list beyond
+  2^31 bytes (SQFS_ERROR_OVERFLOW), i.e. 2^29 blocks.
+
+  Returns true if a file of the given size can not be stored with the given
+  block size. The packers test this before they feed a file to the block
+  processor: the size of a sparse file is merely declared by the input (a
+  tar header, the size of a file with holes), so without the test a few
+  bytes of input keep the packer busy block by block until the limit is
+  finally hit.
+ */
+#define SQFS_MAX_FILE_BLOCK_COUNT (0x20000000UL)
+
+static SQFS_INLINE bool file_exceeds_block_list(sqfs_u64 size,
+						 size_t block_size)
+{
+	return (size / block_size) > SQFS_MAX_FILE_BLOCK_COUNT;
+}
+
 #endif /* COMMON_H */
